@@ -134,4 +134,6 @@ pub fn run(run: &Run) {
             }
         }
     });
+    // thorough: the same quick workload once more under the AddressSanitizer build (memory errors in the library or its dependencies)
+    if !run.quick() { crate::lanes::asan_rerun(run); }
 }
